@@ -62,6 +62,12 @@ func (r *Result) Observe(set, item string) {
 	}
 }
 
+// Broken reports a defect of the harness itself (generator self-check failed, oracle precondition
+// violated). The run fails as broken machinery; it is never a property violation.
+func (r *Result) Broken(msg string, detail any) {
+	r.Violations = append(r.Violations, Violation{Kind: "harness-broken", Msg: msg, Detail: detail})
+}
+
 func (r *Result) Violate(kind, msg string, match map[string]string, detail any) {
 	r.Violations = append(r.Violations, Violation{Kind: kind, Msg: msg, Match: match, Detail: detail})
 }
